@@ -20,7 +20,7 @@ def validate(records: list[dict], tag: str = "trace", timeout: int = 3000):
     need_all = any(("language" in "".join(map(chr, l))) for r in records for l in r["lines"][:50] if 35 in l)
     with Scratch(tag) as sc:
         write_dialects(sc, None if need_all else dialects)
-        sc.write_json("docs.json", records)
+        sc.write_json("docs.json", [{k: v for k, v in r.items() if k != "pickles_again"} for r in records])
         res = run_tlc(sc, "Trace_Pipeline", workers=min(CORES, max(1, len(records))), timeout=timeout)
     if "Parsing or semantic analysis failed" in res.out or res.generated == 0 or not res.finished or \
             any(e for e in res.errors if "Invariant" not in e):
